@@ -325,7 +325,31 @@ def rule_p8(ctx):
     ctx.check(ok, "P8-optimised-classes-guard", c, "fallback: flexible_vars = set(variables)", site(f), "without optimised classes every variable must get its language constraint", "all variables flexible")
 
 
+def rule_p11(ctx):
+    """SMT variables that stand for NESTED subtrees (a match expression binds `q` and, inside it, `m`) are not independent strings: the text of the inner tree is a fixed
+    part of the outer one.  The SMT solving functions must relate such variables before asking Z3; they handle every substitution tree on its own today."""
+    m, meths = solver_methods(ctx)
+    fns = [meths[n] for n in ("solve_quantifier_free_formula", "solve_smt_formulas_with_language_constraints", "generate_language_constraints") if n in meths]
+    if len(fns) != 3:
+        raise Unrecognised("C01.P11", f"{SOLVER}:ISLaSolver", "SMT solving functions not found")
+    aware = []
+    for f in fns:
+        for x in ast.walk(f):
+            if isinstance(x, ast.Call) and isinstance(x.func, ast.Attribute) and x.func.attr in ("find_node", "is_prefix", "is_potential_prefix", "paths", "get_subtree") and "substitution" in src(x.func.value):
+                aware.append(x)
+            if isinstance(x, (ast.ListComp, ast.SetComp, ast.GeneratorExp, ast.DictComp)) and sum(1 for g in x.generators if "tree_substitutions" in src(g.iter)) >= 2:
+                aware.append(x)
+    c = f"{SOLVER}:ISLaSolver.solve_smt_formulas_with_language_constraints"
+    if aware:
+        raise Unrecognised("C01.P11", c, f"the SMT solving functions now inspect the structure of substitution trees (`{src(aware[0])[:60]}`): whether nested variables are related correctly must be re-established")
+    ctx.viol("P11-nested-smt-variables", c, "nested substitution trees are related before solving", site(fns[1]),
+             "each variable of an SMT cluster gets its own language constraint and value; when one variable's tree lies inside another's (match expression `q=\"{<var> m}\"`) Z3 may choose "
+             "values that contradict the containment, DerivationTree.substitute() then drops the nested replacement while the constraint is rewritten with both, and the state completes with a tree "
+             "that violates the formula: `exists <rhs> q=\"{<var> m}\" in start: not (q = m)` yields 'a := 1 ; b := a', on which evaluate() answers FALSE")
+
+
 def run(ctx) -> str:
+    ctx.guarded("P11", lambda: rule_p11(ctx))
     ctx.guarded("P8", lambda: rule_p8(ctx))
     ctx.guarded("P1", lambda: rule_p1(ctx))
     ctx.guarded("P2", lambda: rule_p2(ctx))
